@@ -21,6 +21,10 @@ type Violation struct {
 	Replay  json.RawMessage `json:"replay,omitempty"`
 	Known   string          `json:"known,omitempty"` // id of the known finding it matches
 	Stable  bool            `json:"stable"`          // reproduced identically on re-execution
+	// ReadOnly marks a violation of a pure query (filter chain, aggregate): the state of
+	// the implementation still conforms to the model, so the path need not be pruned
+	// when the violation is a known finding.
+	ReadOnly bool `json:"read_only,omitempty"`
 }
 
 func (v Violation) Key() string { return v.Prop + "|" + v.Assert + "|" + v.Witness }
@@ -131,6 +135,17 @@ func (a *Acc) AddNote(k string, n float64) {
 		a.Notes[k] = old + n
 	} else {
 		a.Notes[k] = n
+	}
+}
+
+// Sub counts behaviours checked inside one engine step (e.g. filter chains evaluated
+// at one layout); the engines move it into the accumulator's notes after every step.
+var Sub = map[string]int64{}
+
+func (a *Acc) TakeSub() {
+	for k, n := range Sub {
+		a.AddNote(k, float64(n))
+		delete(Sub, k)
 	}
 }
 
